@@ -13,6 +13,8 @@ fn show_subst(s: &Subst) -> String {
     format!("{v:?}")
 }
 
+const TIE: [&str; 8] = ["tie_alpha", "tie_beta", "tie_gamma", "tie_delta", "tie_epsilon", "tie_zeta", "tie_eta", "tie_theta"];
+
 /// the main history: 6 steps, one per operation of Threads.tla's MainProg
 /// (sym a, egraph, sym b, fresh, egraph, named x)
 fn main_step(k: usize, eg: &mut EGraph<T>, hs: &mut Vec<AppliedId>) {
@@ -36,6 +38,16 @@ fn main_step(k: usize, eg: &mut EGraph<T>, hs: &mut Vec<AppliedId>) {
             println!("step2 {a:?} {b:?}");
             hs.push(a);
             hs.push(b);
+            // symbol constants of equal cost in ONE class (their own e-graph): which of them extraction returns, and the
+            // order in which the class lists them, must be a function of this history alone - not of the order in which
+            // the process-global symbol interner happened to see the names (another thread may have mentioned them first)
+            let mut eg3: EGraph<T> = EGraph::default();
+            let ids: Vec<AppliedId> = TIE.iter().map(|n| add(&mut eg3, n)).collect();
+            for w in ids.windows(2) { eg3.union(&w[0], &w[1]); }
+            let p = add(&mut eg3, &format!("(h {} {})", TIE[0], TIE[1]));
+            let ex = Extractor::<T, AstSize>::new(&eg3, AstSize);
+            println!("step2 tie_ extract {}", ex.extract(&p, &eg3));
+            println!("step2 tie_ enodes {:?}", eg3.enodes(eg3.find_applied_id(&ids[0]).id));
         }
         3 => {
             let s = Slot::fresh();
@@ -107,7 +119,11 @@ fn noise_step(k: usize, eg: &mut EGraph<T>) {
     match k {
         0 => { let _ = Symbol::from("zeta"); let _ = Symbol::from("omega"); eg.add_expr(RecExpr::parse("(h zeta (g omega))").unwrap()); }
         1 => { for _ in 0..5 { let _ = Slot::fresh(); } let _ = Slot::named("xname"); let _ = Slot::named("other"); }
-        2 => { let _ = Symbol::from("beta"); let _ = Symbol::from("gamma"); eg.add_expr(RecExpr::parse("(h gamma beta)").unwrap()); }
+        2 => {
+            let _ = Symbol::from("beta"); let _ = Symbol::from("gamma"); eg.add_expr(RecExpr::parse("(h gamma beta)").unwrap());
+            // unrelated work that happens to mention the main thread's later constants, in another order
+            for n in TIE.iter().rev() { eg.add_expr(RecExpr::parse(n).unwrap()); }
+        }
         3 => {
             let a = eg.add_expr(RecExpr::parse("(h (f $x $y) beta)").unwrap());
             let b = eg.add_expr(RecExpr::parse("(h beta (f $y $x))").unwrap());
